@@ -25,9 +25,10 @@ VARIABLES
   pend,       \* Seq of [caller, callee, ser, born, orph]  pending replies, oldest first (born/orph: cfg.epoch
               \* when recorded / when the callee went away, used only for the timing rules of the trace spec)
   mon,        \* [Slot -> Seq of rules] filters of monitors
+  fdx,        \* [cap: [Slot -> BOOLEAN] fd passing negotiated, held: [Slot -> Seq of fd tokens received, not yet consumed]]
   out         \* Seq of [to, m] : what the last action staged
 
-vars == <<cfg, cst, dying, uid, uname, everNames, queue, rules, pend, mon, out>>
+vars == <<cfg, cst, dying, uid, uname, everNames, queue, rules, pend, mon, fdx, out>>
 
 BUS == S_org_freedesktop_DBus
 NoSlot == 0
@@ -38,7 +39,7 @@ NoSlot == 0
 \*      the name matters, the body is one string of unspecified text)
 Msg(ty, snd, dst, ser, rs, path, ifc, mem, err, sig, args, fl, org, cmp) ==
   [ty |-> ty, snd |-> snd, dst |-> dst, ser |-> ser, rs |-> rs, path |-> path, ifc |-> ifc, mem |-> mem,
-   err |-> err, sig |-> sig, args |-> args, fl |-> fl, org |-> org, cmp |-> cmp, nfd |-> 0,
+   err |-> err, sig |-> sig, args |-> args, fl |-> fl, org |-> org, cmp |-> cmp, nfd |-> 0, fds |-> <<>>,
    unk |-> <<>>, ci |-> FALSE]
 
 AStr(v)  == [t |-> cS, v |-> v]
@@ -171,11 +172,13 @@ Init0 ==
   /\ cst = [s \in Slot |-> "absent"] /\ dying = [s \in Slot |-> FALSE]
   /\ uid = [s \in Slot |-> 0] /\ uname = [s \in Slot |-> <<>>] /\ everNames = {}
   /\ queue = <<>> /\ rules = [s \in Slot |-> <<>>] /\ pend = <<>> /\ mon = [s \in Slot |-> <<>>]
+  /\ fdx = [cap |-> [s \in Slot |-> FALSE], held |-> [s \in Slot |-> <<>>]]
   /\ out = <<>>
 
-Connect(s, u) ==
+Connect(s, u, fdcap) ==
   /\ cst[s] = "absent"
   /\ cst' = [cst EXCEPT ![s] = "incomplete"] /\ uid' = [uid EXCEPT ![s] = u]
+  /\ fdx' = [cap |-> [fdx.cap EXCEPT ![s] = fdcap], held |-> [fdx.held EXCEPT ![s] = <<>>]]
   /\ out' = <<>>
   /\ UNCHANGED <<cfg, dying, uname, everNames, queue, rules, pend, mon>>
 
@@ -184,7 +187,7 @@ ClientClose(s) ==
   /\ cst[s] # "absent" /\ ~dying[s]
   /\ dying' = [dying EXCEPT ![s] = TRUE]
   /\ out' = <<>>
-  /\ UNCHANGED <<cfg, cst, uid, uname, everNames, queue, rules, pend, mon>>
+  /\ UNCHANGED <<fdx, cfg, cst, uid, uname, everNames, queue, rules, pend, mon>>
 
 NumCompleted == Cardinality({x \in Slot : cst[x] \in {"active", "monitor"}})
 NumOfUser(u) == Cardinality({x \in Slot : cst[x] \in {"active", "monitor"} /\ uid[x] = u})
@@ -223,12 +226,12 @@ NoReplyFlag(call) == (call.fl % 2) = 1
 \* A driver call that changes nothing: `rep` is the reply (or error) message for the caller
 Answer(s, call, rep) ==
   /\ out' = Capture(Now, call, s, NoSlot) \o FromBus(Now, s, rep) \o EavesCopies(Now, s, call, NoSlot)
-  /\ UNCHANGED <<cfg, cst, dying, uid, uname, everNames, queue, rules, pend, mon>>
+  /\ UNCHANGED <<fdx, cfg, cst, dying, uid, uname, everNames, queue, rules, pend, mon>>
 \* a refused or failed call is not matched against the rules of third parties at all (bus_dispatch jumps past
 \* bus_dispatch_matches): only monitors see it
 AnswerErr(s, call, ename) ==
   /\ out' = Capture(Now, call, s, NoSlot) \o FromBus(Now, s, ErrReply(DstOf(s), call.ser, ename))
-  /\ UNCHANGED <<cfg, cst, dying, uid, uname, everNames, queue, rules, pend, mon>>
+  /\ UNCHANGED <<fdx, cfg, cst, dying, uid, uname, everNames, queue, rules, pend, mon>>
 
 Hello(s, ser, fl, new) ==
   LET call == DriverCall(s, ser, BUS, S_Hello, <<>>, <<>>, fl) IN
@@ -249,7 +252,7 @@ Hello(s, ser, fl, new) ==
                   \o FromBus(W, s, Reply(new, ser, SigS, <<AStr(new)>>, "exact"))
                   \o OwnerChange(W, new, NoSlot, s)
                   \o EavesCopies(W, s, call2, NoSlot)
-        /\ UNCHANGED <<cfg, dying, uid, queue, rules, pend, mon>>
+        /\ UNCHANGED <<fdx, cfg, dying, uid, queue, rules, pend, mon>>
 
 RequestName(s, ser, fl, n, f) ==
   LET call == DriverCall(s, ser, BUS, S_RequestName, <<cS, cU>>, <<AStr(n), AU32(f)>>, fl)
@@ -267,7 +270,7 @@ RequestName(s, ser, fl, n, f) ==
                     \o (IF r.w # NoSlot THEN OwnerChange(W, n, r.o, r.w) ELSE <<>>)
                     \o FromBus(W, s, Reply(uname[s], ser, SigU, <<AU32(r.code)>>, "exact"))
                     \o EavesCopies(W, s, call, NoSlot)
-          /\ UNCHANGED <<cfg, cst, dying, uid, uname, everNames, rules, pend, mon>>
+          /\ UNCHANGED <<fdx, cfg, cst, dying, uid, uname, everNames, rules, pend, mon>>
 
 ReleaseName(s, ser, fl, n) ==
   LET call == DriverCall(s, ser, BUS, S_ReleaseName, SigS, <<AStr(n)>>, fl)
@@ -287,7 +290,7 @@ ReleaseName(s, ser, fl, n) ==
                     \o (IF q[1].s = s THEN OwnerChange(W, n, s, nw) ELSE <<>>)
                     \o FromBus(W, s, Reply(uname[s], ser, SigU, <<AU32(1)>>, "exact"))
                     \o EavesCopies(W, s, call, NoSlot)
-          /\ UNCHANGED <<cfg, cst, dying, uid, uname, everNames, rules, pend, mon>>
+          /\ UNCHANGED <<fdx, cfg, cst, dying, uid, uname, everNames, rules, pend, mon>>
 
 \* ---- queries
 AllNames == {BUS} \cup {uname[x] : x \in {y \in Slot : cst[y] = "active"}} \cup DOMAIN queue
@@ -317,7 +320,7 @@ Query(s, ser, fl, kind, n) ==
             [] kind = "list" -> Answer(s, call, Reply(me, ser, SigAS, <<AStrs(SeqOfSet(AllNames))>>, "set1"))
             [] kind = "ping" -> IF NoReplyFlag(call)
                                 THEN /\ out' = Capture(Now, call, s, NoSlot) \o EavesCopies(Now, s, call, NoSlot)
-                                     /\ UNCHANGED <<cfg, cst, dying, uid, uname, everNames, queue, rules, pend, mon>>
+                                     /\ UNCHANGED <<fdx, cfg, cst, dying, uid, uname, everNames, queue, rules, pend, mon>>
                                 ELSE Answer(s, call, Reply(me, ser, <<>>, <<>>, "exact"))
 
 \* driver artefact: a client that is about to close first makes sure its earlier messages were dispatched (Ping
@@ -330,7 +333,7 @@ PingAndClose(s, ser) ==
                                 ELSE ErrReply(DstOf(s), ser, E_AccessDenied))
             \o (IF DriverGate(s, call) THEN EavesCopies(Now, s, call, NoSlot) ELSE <<>>)
   /\ dying' = [dying EXCEPT ![s] = TRUE]
-  /\ UNCHANGED <<cfg, cst, uid, uname, everNames, queue, rules, pend, mon>>
+  /\ UNCHANGED <<fdx, cfg, cst, uid, uname, everNames, queue, rules, pend, mon>>
 
 \* ---- match rules
 AddMatch(s, ser, fl, text) ==
@@ -346,7 +349,7 @@ AddMatch(s, ser, fl, text) ==
              out' = Capture(Now, call, s, NoSlot)
                     \o (IF NoReplyFlag(call) THEN <<>> ELSE FromBus(W, s, Reply(uname[s], ser, <<>>, <<>>, "exact")))
                     \o EavesCopies(W, s, call, NoSlot)
-          /\ UNCHANGED <<cfg, cst, dying, uid, uname, everNames, queue, pend, mon>>
+          /\ UNCHANGED <<fdx, cfg, cst, dying, uid, uname, everNames, queue, pend, mon>>
 
 \* index of the most recently added rule equal to r, or 0
 LastEqual(rs, r) == IF \E i \in 1..Len(rs) : RuleEqual(rs[i], r)
@@ -367,7 +370,7 @@ RemoveMatch(s, ser, fl, text) ==
              out' = Capture(Now, call, s, NoSlot)
                     \o (IF NoReplyFlag(call) THEN <<>> ELSE FromBus(Now, s, Reply(uname[s], ser, <<>>, <<>>, "exact")))
                     \o EavesCopies(W, s, call, NoSlot)
-          /\ UNCHANGED <<cfg, cst, dying, uid, uname, everNames, queue, pend, mon>>
+          /\ UNCHANGED <<fdx, cfg, cst, dying, uid, uname, everNames, queue, pend, mon>>
 
 \* KNOWN DEFECT (deviation, only enabled by BusTrace while listed open in known-findings.json):
 \* RemoveMatch of a rule the caller does not hold stages the success reply before it looks for the rule and
@@ -379,7 +382,7 @@ Dev_RemoveMatchAckThenError(s, ser, fl, text) ==
   /\ out' = Capture(Now, call, s, NoSlot)
             \o FromBus(Now, s, Reply(uname[s], ser, <<>>, <<>>, "exact"))
             \o FromBus(Now, s, ErrReply(uname[s], ser, E_MatchRuleNotFound))
-  /\ UNCHANGED <<cfg, cst, dying, uid, uname, everNames, queue, rules, pend, mon>>
+  /\ UNCHANGED <<fdx, cfg, cst, dying, uid, uname, everNames, queue, rules, pend, mon>>
 
 \* ------------------------------------------------------------------ disconnect processing
 \* bus_connection_disconnected: match rules go first, then every name (each in its own transaction, unique name
@@ -428,6 +431,7 @@ Drop(s, order) ==
      /\ uname' = [uname EXCEPT ![s] = <<>>]
      /\ out' = d.em
                \o (IF wasActive THEN OwnerChange(W1, uname[s], s, NoSlot) ELSE <<>>)
+     /\ fdx' = [fdx EXCEPT !.held[s] = <<>>, !.cap[s] = FALSE]      \* descriptors it had sent but not used are closed
      /\ UNCHANGED <<cfg, uid, everNames>>
 
 \* a pending reply expires (reply_timeout elapsed, or the callee is gone): NoReply to the caller, exactly once
@@ -436,10 +440,11 @@ ExpirePending(i) ==
   /\ LET p == pend[i] IN
      /\ pend' = RemoveAt(pend, i)
      /\ out' = FromBus(Now, p.caller, ErrReply(uname[p.caller], p.ser, E_NoReply))
-  /\ UNCHANGED <<cfg, cst, dying, uid, uname, everNames, queue, rules, mon>>
+  /\ UNCHANGED <<fdx, cfg, cst, dying, uid, uname, everNames, queue, rules, mon>>
 
-Kill(s) == /\ dying' = [dying EXCEPT ![s] = TRUE]
-           /\ UNCHANGED <<cfg, cst, uid, uname, everNames, queue, rules, pend, mon>>
+KillKeep(s) == /\ dying' = [dying EXCEPT ![s] = TRUE]
+               /\ UNCHANGED <<cfg, cst, uid, uname, everNames, queue, rules, pend, mon>>
+Kill(s) == KillKeep(s) /\ UNCHANGED fdx
 
 \* ---- monitors (org.freedesktop.DBus.Monitoring.BecomeMonitor)
 RECURSIVE ParseAll(_,_)
@@ -478,7 +483,7 @@ BecomeMonitor(s, ser, fl, texts, flags, order) ==
                     \o OwnerChange(W0, uname[s], s, NoSlot)
                     \o d.em
                     \o EavesCopies(World(cst', uname, d.qs, rl2, mon'), s, call, NoSlot)
-          /\ UNCHANGED <<cfg, dying, uid, uname, everNames>>
+          /\ UNCHANGED <<fdx, cfg, dying, uid, uname, everNames>>
 
 \* a monitor that sends anything at all is disconnected
 MonitorSpeaks(s) == cst[s] = "monitor" /\ Kill(s) /\ out' = <<>>
@@ -490,7 +495,7 @@ MonitorSpeaks(s) == cst[s] = "monitor" /\ Kill(s) /\ out' = <<>>
 OomAbort(s, ser) ==
   /\ CanTalk(s)
   /\ out' = <<To(s, Msg(3, BUS, <<>>, 0, ser, <<>>, <<>>, <<>>, E_NoMemory, <<>>, <<>>, 1, 0, "errtext"))>>
-  /\ UNCHANGED <<cfg, cst, dying, uid, uname, everNames, queue, rules, pend, mon>>
+  /\ UNCHANGED <<fdx, cfg, cst, dying, uid, uname, everNames, queue, rules, pend, mon>>
 
 \* KNOWN DEFECT (deviation OomKeepsQueueChange): changes to the waiting queue that do not change the primary owner
 \* are made outside the transaction -- a queued owner leaving (ReleaseName), the requester's stale entry dropped on
@@ -504,7 +509,7 @@ Dev_OomKeepsQueueChange(s, ser, kind, n, f) ==
      ELSE q # <<>> /\ InQ(q, s) /\ q[1].s # s
   /\ queue' = PutQ(queue, n, q2)
   /\ out' = <<To(s, Msg(3, BUS, <<>>, 0, ser, <<>>, <<>>, <<>>, E_NoMemory, <<>>, <<>>, 1, 0, "errtext"))>>
-  /\ UNCHANGED <<cfg, cst, dying, uid, uname, everNames, rules, pend, mon>>
+  /\ UNCHANGED <<fdx, cfg, cst, dying, uid, uname, everNames, rules, pend, mon>>
 
 \* KNOWN DEFECT (deviation OomHelloHalfDone): bus_driver_handle_hello completes the connection (unique name, policy,
 \* counters) before the steps that can still fail; when one of them runs out of memory the caller gets NoMemory but
@@ -513,7 +518,7 @@ Dev_OomHelloHalfDone(s, ser, name) ==
   /\ cst[s] = "incomplete" /\ name \notin everNames
   /\ cst' = [cst EXCEPT ![s] = "active"] /\ uname' = [uname EXCEPT ![s] = name] /\ everNames' = everNames \cup {name}
   /\ out' = <<To(s, Msg(3, BUS, <<>>, 0, ser, <<>>, <<>>, <<>>, E_NoMemory, <<>>, <<>>, 1, 0, "errtext"))>>
-  /\ UNCHANGED <<cfg, dying, uid, queue, rules, pend, mon>>
+  /\ UNCHANGED <<fdx, cfg, dying, uid, queue, rules, pend, mon>>
 
 \* bytes that are not a valid message, or a message over max_message_size: the sender is disconnected, nothing else
 Corrupt(s) == /\ cst[s] # "absent" /\ Kill(s) /\ out' = <<>>
@@ -548,6 +553,7 @@ RuleCopies(W, s, m, adr) ==
   LET R == RuleRecipients(W, m, s, adr)
       sq == SeqOfSet(R)
       ok(r) == /\ m.ty \in 1..4
+               /\ (m.nfd = 0 \/ fdx.cap[r])
                /\ CanSend(cfg.policy, Cred(s), m, FALSE, TRUE, HeldNames(W.qs, W.un, r))
                /\ CanReceive(cfg.policy, Cred(r), m, FALSE, HeldNames(W.qs, W.un, s), m.dst # <<>>)
       one(r) == IF ok(r) THEN <<To(r, m)>> ELSE Capture(W, ErrReply(UNm(W, s), m.ser, E_AccessDenied), NoSlot, s)
@@ -559,12 +565,13 @@ AutoStart(m) == ((m.fl \div 2) % 2) = 0
 
 \* m0: the message as the client wrote it (legitimate fields only; forged SENDER, unknown fields and
 \* CONTAINER_INSTANCE never survive and are therefore not part of the abstract message)
-Send(s, m0) ==
+Send(s, m0, rest) ==
   LET m == [m0 EXCEPT !.snd = IF cst[s] = "active" THEN uname[s] ELSE S_not_active_yet, !.org = s]
       adr == IF m.dst = <<>> THEN NoSlot ELSE Resolve(queue, m.dst) IN
   /\ cst[s] # "absent"
   /\ m.dst # BUS
-  /\ IF cst[s] = "monitor" THEN Kill(s) /\ out' = <<>>                       \* MonitorSpeaks
+  /\ fdx' = [fdx EXCEPT !.held[s] = rest]      \* descriptors that came with it and that it did not claim stay held
+  /\ IF cst[s] = "monitor" THEN KillKeep(s) /\ out' = <<>>                       \* MonitorSpeaks
      ELSE IF m.dst = <<>> /\ m.ty # 4 THEN
           \* a non-signal without destination is for the bus itself as a peer: Peer.Ping is answered, any other
           \* call gets UnknownMethod, replies are dropped.  (What the code really does: Dev_LocalReplyUnstamped.)
@@ -573,7 +580,7 @@ Send(s, m0) ==
                          THEN <<To(s, Reply(DstOf(s), m.ser, <<>>, <<>>, "exact"))>>
                     ELSE <<To(s, ErrReply(DstOf(s), m.ser, E_UnknownMethod))>>
           /\ UNCHANGED <<cfg, cst, dying, uid, uname, everNames, queue, rules, pend, mon>>
-     ELSE IF cst[s] = "incomplete" THEN Kill(s) /\ out' = Capture(Now, m, s, NoSlot)  \* not registered yet
+     ELSE IF cst[s] = "incomplete" THEN KillKeep(s) /\ out' = Capture(Now, m, s, NoSlot)  \* not registered yet
      ELSE IF m.dst # <<>> /\ adr = NoSlot THEN
           /\ out' = Capture(Now, m, s, NoSlot)
                     \o FromBus(Now, s, ErrReply(uname[s], m.ser,
@@ -582,11 +589,14 @@ Send(s, m0) ==
      ELSE IF adr = NoSlot THEN          \* broadcast signal
           /\ out' = Capture(Now, m, s, NoSlot) \o RuleCopies(Now, s, m, NoSlot)
           /\ UNCHANGED <<cfg, cst, dying, uid, uname, everNames, queue, rules, pend, mon>>
-     ELSE LET g == Gate(s, adr, m) IN
+     ELSE LET g == Gate(s, adr, m)
+              \* a message with descriptors only goes to connections that negotiated descriptor passing; the check
+              \* comes after the gate (so the gate's bookkeeping stays even when this check refuses the message)
+              fdok == m.nfd = 0 \/ fdx.cap[adr] IN
           /\ pend' = g.pd
           /\ out' = Capture(Now, m, s, adr)
-                    \o (IF g.ok THEN <<To(adr, m)>> \o RuleCopies(Now, s, m, adr)
-                        ELSE FromBus(Now, s, ErrReply(uname[s], m.ser, g.err)))
+                    \o (IF g.ok /\ fdok THEN <<To(adr, m)>> \o RuleCopies(Now, s, m, adr)
+                        ELSE FromBus(Now, s, ErrReply(uname[s], m.ser, IF g.ok THEN E_NotSupported ELSE g.err)))
           /\ UNCHANGED <<cfg, cst, dying, uid, uname, everNames, queue, rules, mon>>
 
 \* KNOWN DEFECT (deviation): a non-signal without destination is handed back to libdbus inside the daemon, which
@@ -598,7 +608,7 @@ Dev_LocalReplyUnstamped(s, m0, fsnd) ==
   /\ out' = IF m0.ifc = S_org_freedesktop_DBus_Peer /\ m0.mem = S_Ping /\ m0.sig = <<>>
             THEN <<To(s, Msg(2, <<>>, fsnd, 0, m0.ser, <<>>, <<>>, <<>>, <<>>, <<>>, <<>>, 1, 0, "exact"))>>
             ELSE <<To(s, Msg(3, <<>>, fsnd, 0, m0.ser, <<>>, <<>>, <<>>, E_UnknownMethod, SigS, <<>>, 1, 0, "errtext"))>>
-  /\ UNCHANGED <<cfg, cst, dying, uid, uname, everNames, queue, rules, pend, mon>>
+  /\ UNCHANGED <<fdx, cfg, cst, dying, uid, uname, everNames, queue, rules, pend, mon>>
 
 \* anything else addressed to the driver: replies and signals are ignored, unknown methods refused
 DriverOther(s, m0) ==
@@ -610,7 +620,7 @@ DriverOther(s, m0) ==
   /\ IF ~DriverGate(s, m) THEN AnswerErr(s, m, E_AccessDenied)
      ELSE IF m.ty # 1 THEN
           /\ out' = Capture(Now, m, s, NoSlot) \o EavesCopies(Now, s, m, NoSlot)
-          /\ UNCHANGED <<cfg, cst, dying, uid, uname, everNames, queue, rules, pend, mon>>
+          /\ UNCHANGED <<fdx, cfg, cst, dying, uid, uname, everNames, queue, rules, pend, mon>>
      ELSE AnswerErr(s, m, IF knownIfc THEN E_UnknownMethod ELSE E_UnknownInterface)
 
 =============================================================================
